@@ -28,6 +28,14 @@ var zzW *zzWorld
 
 func zzLabels(n, seed int) []string {
 	out := make([]string, n)
+	if rt.Param("long", 0) == 1 {
+		// IPv6 backends, several instances per host: labels longer than 32 bytes that agree on a
+		// long prefix and differ only in the last port digit
+		for i := range out {
+			out[i] = fmt.Sprintf("[2a02:26f0:1234:5678::a00:%d]:1121%d", 101+i/3, 1+i%3)
+		}
+		return out
+	}
 	for i := range out {
 		out[i] = fmt.Sprintf("10.%d.%d.%d:11211", seed%250, (i*37+seed)%250, i+1)
 	}
